@@ -207,7 +207,7 @@ def run(ctx):
                 'cap strictly below the uncapped component count, or >= 2 components')
     # the translation tie: the control skeletons of get_next_imf / sift / mask_sift are regenerated from the source and the
     # refinement theorems to the models used by this property's theorems are re-checked
-    ctx.proof(extra=['props/Prop_Tie_Sift.v'])
+    ctx.proof(extra=['props/Prop_Tie_Sift.v', 'props/Prop_Tie_Ensemble.v'])
     n = 60 if ctx.quick() else 1000
     cases = []
     for i in range(n):
